@@ -124,6 +124,11 @@ func buildKAC(m Args) (*keys_and_cert.KeysAndCert, error) {
 	if !m.Bool("nilspk") {
 		spk = mkSpk(m.Int("st"), m.Bytes("spk"))
 	}
+	if m.Bool("literal") {
+		// a KeysAndCert assembled by the caller from its exported fields (no constructor in between): the wrappers that take a
+		// *KeysAndCert have to apply their own checks to it
+		return &keys_and_cert.KeysAndCert{KeyCertificate: kc, ReceivingPublic: pub, Padding: m.Bytes("padding"), SigningPublic: spk}, nil
+	}
 	return keys_and_cert.NewKeysAndCert(kc, pub, m.Bytes("padding"), spk)
 }
 
